@@ -5,6 +5,7 @@ import O2P.Drv.Upstream
 import O2P.Drv.Headers
 import O2P.Drv.Authz
 import O2P.Drv.Redirect
+import O2P.Drv.Signed
 /-!
   Line-protocol driver: reads one operation per line on stdin, writes the model's canonical
   answer per line on stdout.  Compiled as a core-only `lean_exe`.  Each `O2P/Drv/<X>.lean`
@@ -13,7 +14,7 @@ import O2P.Drv.Redirect
 open O2P O2P.Drv
 
 def allOps : List (String × Op) :=
-  routesOps ++ serveOps ++ upstreamOps ++ headersOps ++ authzOps ++ redirectOps
+  routesOps ++ serveOps ++ upstreamOps ++ headersOps ++ authzOps ++ redirectOps ++ signedOps
 
 def dispatch (line : String) : String :=
   match line.splitOn "\t" with
